@@ -198,8 +198,10 @@ def c01_roundtrip(w, ev, slot):
     os.unlink(path)
     if loaded_tables and ev.get('c', 0) % 2:
         t2 = loaded_tables[ev.get('b', 0) % len(loaded_tables)]
-        nref = ref.copy()
-        nref.table_id = t2.table_id
+        # the reloaded table's own observation becomes its model (it was
+        # just verified field by field; lists/tuples, int/float widths are
+        # those of the file)
+        nref = ref_from_snap(Snap(t2))
         w.add_slot(t2, nref, ev.get('dst'), tags=('reloaded',))
     return 'c01:ok'
 
